@@ -8,7 +8,7 @@
 //! use inside each worker (`cli_path`), serialised over a file lock.
 use amv::fw::*;
 use serde_json::{json, Value as J};
-use std::io::{Read, Write};
+use std::io::Write;
 use std::os::fd::AsRawFd;
 use std::path::{Path, PathBuf};
 use std::process::{Command, ExitStatus, Stdio};
@@ -20,6 +20,7 @@ pub struct C33;
 const REPO_RUST: &str = "/repo/rust";
 const CLI_TARGET_DIR: &str = "/verif/out/target-cli";
 const BUILD_LOCK: &str = "/verif/out/cli-build.lock";
+const BUILD_STAMP: &str = "/verif/out/cli-build.stamp";
 const TMP_ROOT: &str = "/verif/out/cliv-tmp";
 const SUBPROCESS_TIMEOUT: Duration = Duration::from_secs(30);
 
@@ -32,7 +33,30 @@ fn tail(s: &str, n: usize) -> String {
     lines[lines.len().saturating_sub(n)..].join("\n")
 }
 
-fn build_cli() -> Result<PathBuf, String> {
+/// Identity of the run this worker belongs to: pid + start time of the parent
+/// (the coordinator process). All workers of one `run` share it; every new
+/// `run` has a new one, so the CLI is rebuilt (or found up to date by cargo)
+/// exactly once per run.
+fn run_key() -> String {
+    let ppid = unsafe { libc::getppid() };
+    let start = std::fs::read_to_string(format!("/proc/{ppid}/stat"))
+        .ok()
+        .and_then(|s| {
+            // field 22 (starttime); the comm field may contain spaces, so count from the last ')'
+            let rest = &s[s.rfind(')')? + 1..];
+            rest.split_whitespace().nth(19).map(|x| x.to_string())
+        })
+        .unwrap_or_else(|| "?".into());
+    format!("{ppid}@{start}")
+}
+
+fn build_cli(use_stamp: bool) -> Result<PathBuf, String> {
+    // test hook: C33_REPO_RUST points the build at another checkout (default /repo/rust)
+    let repo_rust = std::env::var("C33_REPO_RUST").unwrap_or_else(|_| REPO_RUST.to_string());
+    let repo_rust = repo_rust.as_str();
+    // test hook: C33_TARGET_DIR keeps such a build out of the regular target directory
+    let target_dir = std::env::var("C33_TARGET_DIR").unwrap_or_else(|_| CLI_TARGET_DIR.to_string());
+    let target_dir = target_dir.as_str();
     std::fs::create_dir_all("/verif/out").map_err(|e| format!("cannot create /verif/out: {e}"))?;
     let lock = std::fs::OpenOptions::new()
         .create(true)
@@ -50,11 +74,28 @@ fn build_cli() -> Result<PathBuf, String> {
             return Err(format!("flock({BUILD_LOCK}) failed: {e}"));
         }
     }
+    // everything below runs under the lock (released when `lock` is dropped)
+    let bin = Path::new(target_dir).join("debug").join("automerge");
+    let key = run_key();
+    if use_stamp && !key.contains('?') {
+        // has another worker of *this run* already done the build?
+        if let Ok(txt) = std::fs::read_to_string(BUILD_STAMP) {
+            if let Ok(v) = serde_json::from_str::<J>(&txt) {
+                if v["run"].as_str() == Some(&key) {
+                    return match v["error"].as_str() {
+                        Some(e) => Err(e.to_string()),
+                        None if bin.is_file() => Ok(bin),
+                        None => Err(format!("{} disappeared", bin.display())),
+                    };
+                }
+            }
+        }
+    }
     let t0 = Instant::now();
     let mut cmd = Command::new("cargo");
     cmd.args(["build", "--offline", "-p", "automerge-cli"])
-        .current_dir(REPO_RUST)
-        .env("CARGO_TARGET_DIR", CLI_TARGET_DIR)
+        .current_dir(repo_rust)
+        .env("CARGO_TARGET_DIR", target_dir)
         .env("CARGO_NET_OFFLINE", "true")
         // /repo/rust/rust-toolchain.toml must decide the toolchain, not the
         // environment the harness happens to have been started from
@@ -65,31 +106,29 @@ fn build_cli() -> Result<PathBuf, String> {
         .env_remove("CARGO_MANIFEST_DIR")
         .env_remove("CARGO_MAKEFLAGS")
         .stdin(Stdio::null());
-    let out = cmd
-        .output()
-        .map_err(|e| format!("cannot run `cargo build -p automerge-cli` in {REPO_RUST}: {e}"))?;
-    drop(lock); // releases the flock
-    if !out.status.success() {
-        return Err(format!(
-            "`cargo build --offline -p automerge-cli` (cwd {REPO_RUST}, CARGO_TARGET_DIR={CLI_TARGET_DIR}) failed with {} after {:.1}s; stderr tail:\n{}",
+    let res = match cmd.output() {
+        Err(e) => Err(format!("cannot run `cargo build -p automerge-cli` in {repo_rust}: {e}")),
+        Ok(out) if !out.status.success() => Err(format!(
+            "`cargo build --offline -p automerge-cli` (cwd {repo_rust}, CARGO_TARGET_DIR={target_dir}) failed with {} after {:.1}s; stderr tail:\n{}",
             out.status,
             t0.elapsed().as_secs_f64(),
             tail(&String::from_utf8_lossy(&out.stderr), 25)
-        ));
-    }
-    let bin = Path::new(CLI_TARGET_DIR).join("debug").join("automerge");
-    if !bin.is_file() {
-        return Err(format!("cargo build succeeded but {} does not exist", bin.display()));
-    }
-    Ok(bin)
+        )),
+        Ok(_) if !bin.is_file() => Err(format!("cargo build succeeded but {} does not exist", bin.display())),
+        Ok(_) => Ok(bin),
+    };
+    let stamp = json!({"run": key, "error": res.as_ref().err(), "build_s": t0.elapsed().as_secs_f64()});
+    let _ = std::fs::write(BUILD_STAMP, stamp.to_string());
+    drop(lock);
+    res
 }
 
 /// Path of the freshly built CLI. Panics (=> the case is aborted, the run is
 /// inconclusive) when the CLI cannot be built; the failure is cached so that
 /// every later case fails fast with the same message.
-fn cli_path() -> &'static Path {
+fn cli_path(use_stamp: bool) -> &'static Path {
     static CLI: OnceLock<Result<PathBuf, String>> = OnceLock::new();
-    match CLI.get_or_init(build_cli) {
+    match CLI.get_or_init(|| build_cli(use_stamp)) {
         Ok(p) => p,
         Err(e) => panic!("C33: CANNOT BUILD THE CLI UNDER TEST — no case was checked: {e}"),
     }
@@ -105,37 +144,42 @@ struct Ran {
     stderr: Vec<u8>,
 }
 
-/// None = timed out (killed)
-fn run_cli(cmd: &mut Command, input: Option<Vec<u8>>) -> Option<Ran> {
-    cmd.stdin(if input.is_some() { Stdio::piped() } else { Stdio::null() })
-        .stdout(Stdio::piped())
-        .stderr(Stdio::piped())
+/// Runs one CLI process. stdout/stderr go to scratch files in `dir` (so the
+/// child can never block on us and no reader threads are needed); stdin is a
+/// real pipe for inputs that fit into the pipe buffer, a file otherwise.
+/// None = timed out (killed).
+fn run_cli(cmd: &mut Command, input: Option<&[u8]>, dir: &Path) -> Option<Ran> {
+    let so_path = dir.join("stdout.bin");
+    let se_path = dir.join("stderr.txt");
+    let mk = |p: &Path| std::fs::File::create(p).unwrap_or_else(|e| panic!("C33: cannot create {}: {e}", p.display()));
+    cmd.stdout(mk(&so_path))
+        .stderr(mk(&se_path))
         // tracing_subscriber writes its log to stdout; keep the run deterministic
         .env_remove("RUST_LOG")
         .env("RUST_BACKTRACE", "0");
+    let mut pipe_data: Option<&[u8]> = None;
+    match input {
+        None => {
+            cmd.stdin(Stdio::null());
+        }
+        Some(d) if d.len() <= 32 * 1024 => {
+            cmd.stdin(Stdio::piped());
+            pipe_data = Some(d);
+        }
+        Some(d) => {
+            let p = dir.join("stdin.bin");
+            std::fs::write(&p, d).unwrap_or_else(|e| panic!("C33: cannot write {}: {e}", p.display()));
+            cmd.stdin(std::fs::File::open(&p).unwrap_or_else(|e| panic!("C33: cannot open {}: {e}", p.display())));
+        }
+    }
     let mut child = cmd
         .spawn()
         .unwrap_or_else(|e| panic!("C33: cannot spawn the CLI binary: {e}"));
-    let stdin = child.stdin.take();
-    let h_in = input.map(|data| {
-        std::thread::spawn(move || {
-            if let Some(mut s) = stdin {
-                let _ = s.write_all(&data);
-            }
-        })
-    });
-    let mut so = child.stdout.take().unwrap();
-    let h_out = std::thread::spawn(move || {
-        let mut v = vec![];
-        let _ = so.read_to_end(&mut v);
-        v
-    });
-    let mut se = child.stderr.take().unwrap();
-    let h_err = std::thread::spawn(move || {
-        let mut v = vec![];
-        let _ = se.read_to_end(&mut v);
-        v
-    });
+    if let Some(d) = pipe_data {
+        // <= 32 KiB into an empty 64 KiB pipe: cannot block. EPIPE (child gone) is ignored.
+        let mut s = child.stdin.take().unwrap();
+        let _ = s.write_all(d);
+    }
     let deadline = Instant::now() + SUBPROCESS_TIMEOUT;
     let status = loop {
         match child.try_wait() {
@@ -146,16 +190,13 @@ fn run_cli(cmd: &mut Command, input: Option<Vec<u8>>) -> Option<Ran> {
                     let _ = child.wait();
                     break None;
                 }
-                std::thread::sleep(Duration::from_micros(700));
+                std::thread::sleep(Duration::from_micros(800));
             }
             Err(e) => panic!("C33: waiting for the CLI failed: {e}"),
         }
     };
-    if let Some(h) = h_in {
-        let _ = h.join();
-    }
-    let stdout = h_out.join().unwrap_or_default();
-    let stderr = h_err.join().unwrap_or_default();
+    let stdout = std::fs::read(&so_path).unwrap_or_default();
+    let stderr = std::fs::read(&se_path).unwrap_or_default();
     status.map(|status| Ran { status, stdout, stderr })
 }
 
@@ -745,6 +786,8 @@ struct Mis {
     actual: String,
     /// for number leaves: the literal the input used
     num_text: Option<String>,
+    /// for float leaves that came back as another float: distance in representable doubles
+    ulps: Option<u64>,
 }
 
 fn show_v(v: &V) -> String {
@@ -780,11 +823,29 @@ fn show_j(j: &J) -> String {
     }
 }
 
-fn cmp(e: &V, a: &J, path: &str, out: &mut Vec<Mis>) {
-    if out.len() >= 6 {
-        return;
+/// at most 3 recorded mismatches per class (the whole document is always walked)
+fn room(out: &[Mis], class: &str) -> bool {
+    out.iter().filter(|m| m.class == class).count() < 3
+}
+
+/// distance in representable doubles between two finite floats
+fn ulp_distance(a: f64, b: f64) -> u64 {
+    fn ord(f: f64) -> i128 {
+        let b = f.to_bits();
+        if b >> 63 == 1 {
+            -((b & !(1 << 63)) as i128)
+        } else {
+            b as i128
+        }
     }
+    (ord(a) - ord(b)).unsigned_abs().min(u64::MAX as u128) as u64
+}
+
+fn cmp(e: &V, a: &J, path: &str, out: &mut Vec<Mis>) {
     let mut push = |class: &'static str| {
+        if !room(out, class) {
+            return;
+        }
         out.push(Mis {
             class,
             path: if path.is_empty() { "(root)".into() } else { path.to_string() },
@@ -794,6 +855,10 @@ fn cmp(e: &V, a: &J, path: &str, out: &mut Vec<Mis>) {
                 V::Int(i) => Some(i.to_string()),
                 V::UInt(u) => Some(u.to_string()),
                 V::Float(_, t) => Some(t.clone()),
+                _ => None,
+            },
+            ulps: match (e, a) {
+                (V::Float(x, _), J::Number(n)) if n.is_f64() => Some(ulp_distance(*x, n.as_f64().unwrap())),
                 _ => None,
             },
         })
@@ -832,6 +897,9 @@ fn cmp(e: &V, a: &J, path: &str, out: &mut Vec<Mis>) {
                 if y.to_bits() != x.to_bits() {
                     if *x == 0.0 && y == 0.0 {
                         push("neg-zero")
+                    } else if ulp_distance(*x, y) <= 4 {
+                        // the result is a neighbouring double: inexact decimal → binary conversion
+                        push("float-ulp-drift")
                     } else {
                         push("float-value-changed")
                     }
@@ -851,26 +919,28 @@ fn cmp(e: &V, a: &J, path: &str, out: &mut Vec<Mis>) {
                 match m.get(k) {
                     Some(y) => cmp(x, y, &format!("{path}/{}", key_show(k)), out),
                     None => {
-                        if out.len() < 6 {
+                        if room(out, "key-missing") {
                             out.push(Mis {
                                 class: "key-missing",
                                 path: format!("{path}/{}", key_show(k)),
                                 expected: format!("key {k:?} present"),
                                 actual: format!("keys {:?}", m.keys().take(20).collect::<Vec<_>>()),
                                 num_text: None,
+                                ulps: None,
                             })
                         }
                     }
                 }
             }
             for k in m.keys() {
-                if !kvs.iter().any(|(kk, _)| kk == k) && out.len() < 6 {
+                if !kvs.iter().any(|(kk, _)| kk == k) && room(out, "key-extra") {
                     out.push(Mis {
                         class: "key-extra",
                         path: format!("{path}/{}", key_show(k)),
                         expected: format!("keys {:?}", kvs.iter().map(|(k, _)| k).take(20).collect::<Vec<_>>()),
                         actual: format!("unexpected key {k:?}"),
                         num_text: None,
+                        ulps: None,
                     })
                 }
             }
@@ -916,14 +986,14 @@ fn round_trip(cli: &Path, text: &str, via_files: bool) -> Trip {
         let r = (|| {
             let mut c = Command::new(cli);
             c.arg("import").arg(&inp).arg("-o").arg(&doc).current_dir(&dir);
-            match run_cli(&mut c, None) {
+            match run_cli(&mut c, None, &dir) {
                 None => return Trip::Timeout("import"),
                 Some(ran) if !ran.status.success() => return Trip::Failed { stage: "import", ran },
                 Some(_) => {}
             }
             let mut c = Command::new(cli);
             c.arg("export").arg(&doc).arg("-o").arg(&outp).current_dir(&dir);
-            match run_cli(&mut c, None) {
+            match run_cli(&mut c, None, &dir) {
                 None => Trip::Timeout("export"),
                 Some(ran) if !ran.status.success() => Trip::Failed { stage: "export", ran },
                 Some(_) => Trip::Exported(std::fs::read(&outp).unwrap_or_default()),
@@ -937,20 +1007,23 @@ fn round_trip(cli: &Path, text: &str, via_files: bool) -> Trip {
         (|| {
             let mut c = Command::new(cli);
             c.arg("import").current_dir(&dir);
-            let saved = match run_cli(&mut c, Some(text.as_bytes().to_vec())) {
+            let saved = match run_cli(&mut c, Some(text.as_bytes()), &dir) {
                 None => return Trip::Timeout("import"),
                 Some(ran) if !ran.status.success() => return Trip::Failed { stage: "import", ran },
                 Some(ran) => ran.stdout,
             };
             let mut c = Command::new(cli);
             c.arg("export").current_dir(&dir);
-            match run_cli(&mut c, Some(saved)) {
+            match run_cli(&mut c, Some(&saved), &dir) {
                 None => Trip::Timeout("export"),
                 Some(ran) if !ran.status.success() => Trip::Failed { stage: "export", ran },
                 Some(ran) => Trip::Exported(ran.stdout),
             }
         })()
     };
+    for f in ["stdout.bin", "stderr.txt", "stdin.bin"] {
+        let _ = std::fs::remove_file(dir.join(f));
+    }
     let _ = std::fs::remove_dir(&dir); // only succeeds when empty
     r
 }
@@ -960,7 +1033,7 @@ impl Check for C33 {
         "C33"
     }
     fn cases(&self, tier: Tier) -> u64 {
-        tier.pick(1600, 22_000)
+        tier.pick(640, 8_000)
     }
     fn budget_s(&self, tier: Tier) -> u64 {
         // generous: the first case of every worker may have to wait for the
@@ -968,7 +1041,7 @@ impl Check for C33 {
         tier.pick(240, 600)
     }
     fn min_nontrivial(&self, tier: Tier) -> u64 {
-        tier.pick(300, 3000)
+        tier.pick(200, 2000)
     }
     fn in_panic_watch(&self) -> bool {
         false
@@ -999,16 +1072,18 @@ impl Check for C33 {
         ]
     }
     fn run_case(&self, cx: &mut Ctx, case: u64, rng: &mut Rng) {
-        let cli = cli_path();
+        // replays (verbose) always go through cargo; workers of one run build once
+        let cli = cli_path(!cx.verbose);
         // ---- generate
         let mut grng = rng.fork();
         let mut wrng = rng.fork();
         let max_depth = cx.tier.pick(4, 6);
-        let budget = match rng.weighted(&[30, 45, 20, 5]) {
+        // process creation dominates the cost of a case, so documents are on the large side
+        let budget = match rng.weighted(&[15, 35, 35, 15]) {
             0 => rng.range(1, 8),
             1 => rng.range(8, 40),
-            2 => rng.range(40, 120),
-            _ => rng.range(120, 400),
+            2 => rng.range(40, 150),
+            _ => rng.range(150, 500),
         } as i64;
         let mut g = Gen { rng: &mut grng, max_depth, budget, st: Stats::default() };
         let model = loop {
@@ -1144,6 +1219,11 @@ impl Check for C33 {
             return;
         }
         cx.trace(|| format!("exported: {out_text}"));
+        for m in &mis {
+            if let Some(u) = m.ulps {
+                cx.max("float_ulp_distance", u);
+            }
+        }
         // one violation per distinct class in this document
         let mut seen: Vec<&'static str> = vec![];
         for m in &mis {
@@ -1152,7 +1232,10 @@ impl Check for C33 {
             }
             seen.push(m.class);
             // for number leaves: does the one-value document reproduce it?
-            let minimal = m.num_text.as_ref().map(|t| {
+            // (only for the first reports of a class in this worker: each costs two more processes)
+            let sig = format!("c33|{}", m.class);
+            let already = cx.violations.iter().filter(|v| v.sig == sig).count();
+            let minimal = m.num_text.as_ref().filter(|_| already < 2).map(|t| {
                 let doc = format!("{{\"v\":{t}}}");
                 let got = match round_trip(cli, &doc, false) {
                     Trip::Exported(b) => String::from_utf8_lossy(&b).split_whitespace().collect::<Vec<_>>().join(" "),
@@ -1162,7 +1245,7 @@ impl Check for C33 {
                 json!({"command": format!("printf '%s' {} | automerge import | automerge export", shell_quote(&doc)), "output": got})
             });
             cx.violation(
-                &format!("c33|{}", m.class),
+                &sig,
                 format!("after import → export the value at {} is {} but the input had {}", m.path, m.actual, m.expected),
                 json!({
                     "class": m.class,
